@@ -342,8 +342,10 @@ inductive Op where
   | drain (id : String) (migs : List Mig)
   /-- `handle_create_connector` (`valid` = `validate_connector` accepts the body) -/
   | connCreate (name body : String) (valid : Bool)
-  /-- `handle_update_connector` -/
-  | connUpdate (name body : String) (valid : Bool)
+  /-- `handle_update_connector`: `name` is the path parameter — the key of the local update *and* of the proposed
+  command; `bodyName` is `body.name` (the API does not require it to equal `name`); `body` renders the whole
+  connector, `bodyName` included -/
+  | connUpdate (name bodyName body : String) (valid : Bool)
   /-- `handle_delete_connector` -/
   | connDelete (name : String)
   /-- health loop: `sync_from_raft` -/
@@ -385,7 +387,7 @@ def stepL (l : LState) (r : RState) : Op → LState
       { l2 with workers := l2.workers.del id }
   | .connCreate name body valid =>
     if (l.connectors.get name).isSome || !valid then l else { l with connectors := l.connectors.put name body }
-  | .connUpdate name body valid =>
+  | .connUpdate name _ body valid =>
     if (l.connectors.get name).isNone || !valid then l else { l with connectors := l.connectors.put name body }
   | .connDelete name => { l with connectors := l.connectors.del name }
   | .tickSync now => sync l r now
@@ -423,7 +425,8 @@ def emits (l l' : LState) : Op → List Cmd
   | .connCreate name body valid =>
     -- repaired (`fix:`): validation happens before the proposal
     if (l.connectors.get name).isSome || !valid then [] else [.connectorCreated name body]
-  | .connUpdate name body valid =>
+  | .connUpdate name _ body valid =>
+    -- proposed under the path key, like the local update (not under `body.name`)
     if (l.connectors.get name).isNone || !valid then [] else [.connectorUpdated name body]
   | .connDelete name => [.connectorRemoved name]
   | .tickSync _ => []
@@ -440,8 +443,16 @@ update were proposed before validation -/
 def emitsPreFix (l l' : LState) : Op → List Cmd
   | .heartbeat _ _ _ _ => []
   | .connCreate name body _ => [.connectorCreated name body]
-  | .connUpdate name body _ => [.connectorUpdated name body]
+  | .connUpdate name _ body _ => [.connectorUpdated name body]
   | op => emits l l' op
+
+/-- a wrong variant kept for a witness: the update proposed under the *body's* name while the local view
+stores it under the path key (what the judge must catch) -/
+def emitsBodyKey (l l' : LState) : Op → List Cmd
+  | .connUpdate name bodyName body valid =>
+    if (l.connectors.get name).isNone || !valid then [] else [.connectorUpdated bodyName body]
+  | op => emits l l' op
+
 
 structure Sys where
   l : LState := {}
@@ -455,6 +466,10 @@ def step (s : Sys) (op : Op) : Sys :=
 def stepPreFix (s : Sys) (op : Op) : Sys :=
   let l' := stepL s.l s.r op
   { l := l', r := applyAll s.r (emitsPreFix s.l l' op) }
+
+def stepBodyKey (s : Sys) (op : Op) : Sys :=
+  let l' := stepL s.l s.r op
+  { l := l', r := applyAll s.r (emitsBodyKey s.l l' op) }
 
 def run (s : Sys) (ops : List Op) : Sys := ops.foldl step s
 
